@@ -40,6 +40,10 @@ type Link struct {
 	Missing        bool // CID listed in the proofs but absent from the loader
 	LoadErr        bool // loader returns an unrelated error for it
 	PolIPLD        bool // build the policy through policy.FromIPLD instead of the constructors
+	// PolSpare: the policy handed to delegation.New is a slice with spare capacity (as one
+	// assembled with append usually is), so an append on the library's side would write into
+	// an array the delegation shares
+	PolSpare bool
 	// NonDlg: the proof CID at this position is the CID of a token that IS in the loader's
 	// container but is not a delegation (an invocation sealed by Iss)
 	NonDlg bool
@@ -244,6 +248,11 @@ func BuildDelegation(l Link, r *rand.Rand) (*delegation.Token, error) {
 	pol, err := BuildPolicy(l.Pol, l.PolIPLD)
 	if err != nil {
 		return nil, fmt.Errorf("policy: %w", err)
+	}
+	if l.PolSpare {
+		roomy := make(policy.Policy, len(pol), len(pol)+8)
+		copy(roomy, pol)
+		pol = roomy
 	}
 	cmd, err := command.Parse(l.Cmd)
 	if err != nil {
@@ -609,6 +618,9 @@ func FullConformant(r *rand.Rand, n int, poolPct int) *Scenario {
 	s.Args = gen.ArgsMap(r)
 	var paths []gen.Path
 	gen.Paths(s.Args, nil, &paths, 3)
+	// places addressed relative to the end or by an open slice: what they select depends on
+	// the length of the value
+	paths = append(paths, gen.RelPaths(r, s.Args, paths, 6)...)
 	for k := range s.Links {
 		ns := 0
 		switch r.IntN(4) {
@@ -625,6 +637,7 @@ func FullConformant(r *rand.Rand, n int, poolPct int) *Scenario {
 			}
 		}
 		s.Links[k].PolIPLD = r.IntN(3) == 0
+		s.Links[k].PolSpare = r.IntN(3) == 0
 		if r.IntN(2) == 0 {
 			s.Links[k].Exp = D(comfortable[r.IntN(len(comfortable))])
 		}
